@@ -370,3 +370,101 @@ func init() {
 			return out
 		}})
 }
+
+// MULMOD — a product reduced modulo m has not been formed in native uint64 arithmetic.
+//
+// `(a * b) % m` with uint64 operands is the product modulo 2^64 reduced modulo m: right only while a*b < 2^64, i.e. for
+// moduli below 32 bits. The library's moduli (primes up to 61 bits, plaintext moduli up to 61 bits, scales modulo t)
+// are not: products go through bits.Mul64/BRed/MRed or math/big. Rule: no `%` has, as its left operand, a native
+// product of two non-constant uint64 values (directly, or through a local whose only definitions are such products).
+func scanMulMod(c *core.Ctx) []ob {
+	var out []ob
+	n := 0
+	c.FuncDecls(func(pk *packages.Package, file *ast.File, fd *ast.FuncDecl) {
+		if fd.Body == nil || fileIsTestSupport(c.Program, fd.Pos()) || inExamples(pk) {
+			return
+		}
+		info := pk.TypesInfo
+		fkey := core.FuncKey(pk, fd)
+		isU64 := func(e ast.Expr) bool {
+			t := info.TypeOf(e)
+			if t == nil {
+				return false
+			}
+			b, ok := t.Underlying().(*types.Basic)
+			return ok && (b.Kind() == types.Uint64 || b.Kind() == types.Uint)
+		}
+		isConst := func(e ast.Expr) bool {
+			tv, ok := info.Types[e]
+			return ok && tv.Value != nil
+		}
+		nativeProduct := func(e ast.Expr) *ast.BinaryExpr {
+			be, ok := unparen(e).(*ast.BinaryExpr)
+			if ok && be.Op == token.MUL && isU64(be) && !isConst(be.X) && !isConst(be.Y) {
+				return be
+			}
+			return nil
+		}
+		var rd *reachInfo
+		ast.Inspect(fd.Body, func(x ast.Node) bool {
+			var left ast.Expr
+			var at ast.Node
+			switch v := x.(type) {
+			case *ast.BinaryExpr:
+				if v.Op == token.REM && isU64(v) {
+					left, at = v.X, v
+				}
+			case *ast.AssignStmt:
+				if v.Tok == token.REM_ASSIGN && len(v.Lhs) == 1 && isU64(v.Lhs[0]) {
+					left, at = v.Lhs[0], v
+				}
+			}
+			if left == nil {
+				return true
+			}
+			n++
+			var prod *ast.BinaryExpr
+			if p := nativeProduct(left); p != nil {
+				prod = p
+			} else if id, ok := unparen(left).(*ast.Ident); ok {
+				if v, ok := info.Uses[id].(*types.Var); ok && !v.IsField() {
+					if rd == nil {
+						rd = reachingDefs(info, fd)
+					}
+					if rhs, initial, ok := rd.defsAt(at, v); ok && !initial && len(rhs) > 0 {
+						all := true
+						for _, r := range rhs {
+							if r == nil || nativeProduct(r) == nil {
+								all = false
+							}
+						}
+						if all {
+							prod = nativeProduct(rhs[0])
+						}
+					}
+				}
+			}
+			if prod != nil {
+				key := fmt.Sprintf("MULMOD:%s#%s", fkey, exprString(prod))
+				out = append(out, violOb("MULMOD", key, c.Rel(at.Pos()), fmt.Sprintf("%s reduces the native uint64 product %s with %%: the product is only exact modulo 2^64, the result is wrong as soon as the factors exceed 32 bits (the library's moduli go up to 61 bits)", fkey, exprString(prod))))
+			}
+			return true
+		})
+	})
+	c.Stats["mulmod_sites"] = n
+	if !c.IsFixture {
+		out = append(out, okOb("MULMOD", "MULMOD:summary", "", fmt.Sprintf("%d uint64 remainder operations examined, none reduces a native product", n), true))
+	}
+	return out
+}
+
+func init() {
+	core.Register(&core.Rule{Name: "MULMOD", Props: []string{"C01", "C02", "C05", "C06", "C15", "C19"},
+		Doc: "no uint64 `%` (or `%=`) has as its left operand a native product of two non-constant uint64 values, directly or through a local all of whose reaching definitions are such products",
+		Run: func(c *core.Ctx) []ob {
+			out := scanMulMod(c)
+			out = append(out, control(c, "MULMOD", scanMulMod, "lvfixture.mulScales")...)
+			out = append(out, core.Floor("MULMOD", nil, "uint64 remainder operations", c.Stats["mulmod_sites"], 3)...)
+			return out
+		}})
+}
